@@ -75,6 +75,7 @@ func c03Valid(w world.World) bool {
 func (C03) Gen(r *simrt.RNG, tier string) core.Case {
 	cfg := world.SwarmCfg(r)
 	cfg.Ifaces = false
+	cfg.RepeatPos = r.Chance(1, 5) // func(a, b T): two parameters, one key
 	w := world.GenExact(r, cfg)
 	// call the same Func again with fresh instances of the supplied values
 	n := r.Intn(3)
@@ -94,12 +95,12 @@ func (C03) Gen(r *simrt.RNG, tier string) core.Case {
 }
 
 func (C03) Decode(raw json.RawMessage) (core.Case, error) { return decodeRCase(raw) }
-func (C03) Shrink(c core.Case) []core.Case                { return shrinkWorlds(c, c03Valid, false) }
+func (C03) Shrink(c core.Case) []core.Case                { return shrinkWorlds(c, c03Valid, true) }
 func (C03) Shape(c core.Case, v core.Violation) string    { return shapeOf(c.(RCase).W, v) }
 
 func (C03) Run(c core.Case, ctx *core.Ctx) []core.Violation {
 	w := c.(RCase).W
-	if !world.WellFormed(w, false) || !c03Valid(w) {
+	if !world.WellFormed(w, true) || !c03Valid(w) {
 		return nil
 	}
 	sh := world.ShapeHash(w)
